@@ -192,6 +192,14 @@ package biscuit
 //@ loop 0 invariant fresh(arr(datalogSet)) && setWF(datalogSet) && (forall j int :: { elts[j] } 0 <= j && j < len(elts) ==> pbTermShallowWF(elts[j]))
 //@ ensures err == nil ==> res != nil && fresh(res) && termWF(*res)
 //@ ensures err != nil ==> res == nil
+//@ ensures tag_variable[C07 C10]: err == nil && input.Content is *pb.TermV2_Variable ==> *res is datalog.Variable && (*res).(datalog.Variable) == input.Content.(*pb.TermV2_Variable).Variable
+//@ ensures tag_integer[C07 C10]: err == nil && input.Content is *pb.TermV2_Integer ==> *res is datalog.Integer && (*res).(datalog.Integer) == input.Content.(*pb.TermV2_Integer).Integer
+//@ ensures tag_string[C07 C10]: err == nil && input.Content is *pb.TermV2_String_ ==> *res is datalog.String && (*res).(datalog.String) == input.Content.(*pb.TermV2_String_).String_
+//@ ensures tag_date[C07 C10]: err == nil && input.Content is *pb.TermV2_Date ==> *res is datalog.Date && (*res).(datalog.Date) == input.Content.(*pb.TermV2_Date).Date
+//@ ensures tag_bytes[C07 C10]: err == nil && input.Content is *pb.TermV2_Bytes ==> *res is datalog.Bytes && (*res).(datalog.Bytes) == input.Content.(*pb.TermV2_Bytes).Bytes
+//@ ensures tag_bool[C07 C10]: err == nil && input.Content is *pb.TermV2_Bool ==> *res is datalog.Bool && (*res).(datalog.Bool) == input.Content.(*pb.TermV2_Bool).Bool
+//@ ensures tag_set[C07 C10]: err == nil ==> ((*res is datalog.Set) == (input.Content is *pb.TermV2_Set))
+//@ ensures no_content[C07 C10]: input.Content == nil ==> err != nil
 
 //@ func protoPredicateToTokenPredicateV2(input *pb.PredicateV2) (res *datalog.Predicate, err error)
 //@ serves C07 C10
